@@ -137,8 +137,12 @@ def validate(module, cfg_consts, traces, modules=None, shards=None, timeout=1800
                 vd.ok = False
                 vd.step, vd.clause, vd.expected = v[2], v[3], v[4]
     notes = {}
-    for r in results:
+    ood = []
+    import re as _re
+    for (b, idxs), r in zip([(b, i) for b, i in enumerate(buckets) if i], results):
         for tag in ('OOD',):
             notes[tag] = notes.get(tag, 0) + r.out.count('<<"%s"' % tag)
-    stats = {'notes': notes, 'steps': steps, 'traces': len(traces), 'tlc_states': states, 'shards': len(jobs), 'wall_s': t.s()}
+        for mm in _re.finditer(r'<<\s*"OOD",\s*(\d+),\s*(\d+)\s*>>', r.out):
+            ood.append((idxs[int(mm.group(1)) - 1], int(mm.group(2))))
+    stats = {'ood': ood, 'notes': notes, 'steps': steps, 'traces': len(traces), 'tlc_states': states, 'shards': len(jobs), 'wall_s': t.s()}
     return verdicts, stats
